@@ -435,6 +435,12 @@ def _binop(name, a, b):
         if lb <= 0 <= hb:
             if ENGINE.decide(tb == 0):
                 raise ZeroDivisionError("integer division or modulo by zero")
+        if la >= 0 and lb == hb and lb > 0 and (lb & (lb - 1)) == 0:
+            # non-negative dividend, constant power-of-two divisor: shift / mask (same value, far cheaper for the solver)
+            k = lb.bit_length() - 1
+            if name == "floordiv":
+                return mkint(z3.LShR(ta, k), la >> k, ha >> k)
+            return mkint(ta & (lb - 1), 0, min(ha, lb - 1))
         if name == "floordiv":
             m = max(abs(la), abs(ha))
             return mkint(_pyfloordiv(ta, tb), -m - 1, m)
